@@ -14,7 +14,7 @@ func init() {
 		RealParts:  []string{"mateMultipoint, mateMultipointAvg, mateSinglePoint and the gene/node/trait copy constructors they use", "the epochs that produce the parents", "the crossover coin flips (math/rand seeded from the tape per call)"},
 		StubParts:  []string{"fitness values of the parents (drawn, with ties)", "fitness assignment during the preparatory epochs"},
 		Assumes:    []string{"parents have a common ancestry (consistent innovation numbers, equal trait counts) - random-start populations are excluded as the property says", "on a full tie (equal fitness, equal gene counts) either parent may supply the exclusive genes, but only one"},
-		ProbeNames: []string{"probe.exclusive_disabled_gene", "probe.both_have_exclusive_genes", "probe.fitness_tie", "probe.full_tie", "probe.excess_on_less_fit", "probe.same_link_two_numbers", "probe.self_mating", "probe.shared_gene_disabled_in_one", "probe.parents_same_genome_id"},
+		ProbeNames: []string{"probe.exclusive_disabled_gene", "probe.both_have_exclusive_genes", "probe.fitness_tie", "probe.full_tie", "probe.excess_on_less_fit", "probe.same_link_two_numbers", "probe.self_mating", "probe.shared_gene_disabled_in_one", "probe.parents_same_genome_id", "probe.op.planted_link"},
 	})
 }
 
@@ -297,6 +297,12 @@ func scenarioC04(c *RunCtx) {
 	prep := []int{OpAddNode, OpAddLink, OpToggleEnable, OpReEnable, OpLinkWeights, OpRandomTrait}
 	n := t.Range("ops", 1, maxOps)
 	for i := 0; i < n; i++ {
+		if t.Chance("plant", 1, 6) {
+			if d := env.PlantLink(t.Draw("plant.a", len(env.Pool))); d != "" {
+				c.Op("%s", d)
+			}
+			continue
+		}
 		if t.Chance("prep", 1, 4) {
 			// diverge an operand further (not judged here: C05's business)
 			op, a, _ := env.DrawOp(prep)
